@@ -311,6 +311,23 @@ def gen_cases(rnd, tier):
         t = rand_type(rnd, rnd.choice([0, 1, 2, 3, 4, 6]))
         tail = bytes(rnd.randint(0, 255) for _ in range(rnd.choice([0, 0, 1, 3])))
         cases.append((t, rand_value(t, rnd), tail))
+    # 4. arrays of records / binaries given a second value (evaluate() sets another value first): records that name only some of their fields,
+    # at indexes that held a full record before
+    for _ in range(30 if tier == "quick" else 300):
+        nf = rnd.choice([2, 2, 3, 4])
+        ft = ("rec", [(f"F{i}", ("scal", rnd.choice(["String", "U2", "Binary", "I4", "Boolean", "String"]), -1)) for i in range(nf)])
+        t = ("arr", ft if rnd.random() < 0.85 else ("scal", "Binary", -1), -1)
+        p = []
+        for _item in range(rnd.choice([1, 2, 3])):
+            if t[1][0] == "rec":
+                full = rand_value(ft, rnd)
+                while not isinstance(full, list) or len(full) != nf:
+                    full = rand_value(ft, rnd)
+                keep = [i for i in range(nf) if rnd.random() < 0.5]
+                p.append({f"F{i}": full[i] for i in keep})
+            else:
+                p.append(rand_value(t[1], rnd))
+        cases.append((t, p, b""))
     return cases
 
 
@@ -326,12 +343,24 @@ def evaluate(cases, prefix, shard=400, jobs=8):
 
     Returns (results, stats): results = list of (case_index, model_code, spec_code) that are not clean."""
     obs = []
-    for t, p, tail in cases:
+    import random as _random
+    for k, (t, p, tail) in enumerate(cases):
         if valrig.has_nan(p):
             obs.append(None)
             continue
         try:
-            o = valrig.observe(t, p, tail)
+            # every second array on a variable that already holds another value of its type: Array.set() replaces its items, what a record
+            # item does not name is empty - not what the item at that index held before.  (A record itself is different: set() with a dict
+            # updates the named fields and keeps the others; that is the library's documented way to change single fields.)
+            before = None
+            if t[0] == "arr" and (k % 2 == 0 or any(isinstance(x, dict) for x in (p if isinstance(p, list) else []))):
+                try:
+                    before = rand_value(t, _random.Random(k * 7919 + 13))
+                except Exception:  # noqa: BLE001
+                    before = None
+                if before is not None and valrig.has_nan(before):
+                    before = None
+            o = valrig.observe(t, p, tail, before)
             lit = valrig.obs_literal(t, p, tail, o)
         except valrig.Unobservable:
             obs.append(None)
